@@ -27,6 +27,15 @@ def cut_sizes(c, P, hs_len, total):
         lo = max(0, hs_len - P.get('hs_window', 8))
         p = lo + c.choose(total - lo + 1, 'cutp')
         return ('sizes', [p, total - p] if 0 < p < total else [total])
+    if mode == 'head-allcuts':
+        # every cut set within the first H bytes of the HTTP reply (the first reads deliver 1, 2, ... bytes), rest in one read
+        H = P.get('head', 4)
+        pts = [i for i in range(1, H + 1) if bool(c.boolean('headcut%d' % i))]
+        sizes, prev = [], 0
+        for x in pts:
+            sizes.append(x - prev)
+            prev = x
+        return ('sizes', sizes + [total - prev])
     if mode == 'two-cuts':
         # 3-segment lemma: p | d1 | d2  versus  p | d1+d2  is handled by run A using [p, rest]
         lo = max(0, hs_len - P.get('hs_window', 4))
